@@ -6,8 +6,11 @@ import scipy.sparse.csgraph as csg
 from .. import coqrun as cq
 from .. import gen
 
-TECHNIQUE = 'Coq bounded proofs (all graphs <= 4 nodes) + exhaustive small-graph kernel/model correspondence'
-LEVEL_TEXT = ('Kernel-checked theorems (Props/C12.v), decided by vm_compute over the complete enumeration and with the '
+TECHNIQUE = 'Coq proofs (naive aggregation unbounded; standard / pairwise all graphs <= 4 nodes) + exhaustive small-graph kernel/model correspondence'
+LEVEL_TEXT = ('Kernel-checked theorems (Props/C12.v).  Unbounded (invariant proof, any number of vertices, any graph with '
+              'column indices in range): naive aggregation assigns every vertex to exactly one aggregate 1..c, every aggregate '
+              'contains its root (no empty aggregate, distinct roots) and every member is the root or a neighbour of it.  '
+              'Bounded, decided by vm_compute over the complete enumeration with the '
               'bound in each statement: for all symmetric graphs on <= 4 vertices (with and without stored diagonal) '
               'the models of standard, naive and pairwise aggregation return a partition: ids in range, no empty '
               'aggregate, distinct roots each lying in the aggregate it names; standard aggregation leaves unaggregated '
@@ -17,14 +20,14 @@ LEVEL_TEXT = ('Kernel-checked theorems (Props/C12.v), decided by vm_compute over
               'kernel) agree exactly with the rebuilt working-tree kernels on every symmetric graph on <= 5 vertices '
               '(6 thorough) and every directed pattern on <= 3 vertices; a partition oracle decides the property on the '
               'public routines incl. multi-pass pairwise (<= 2^matchings) and Lloyd aggregation.')
-LEVEL_NOTE = ('No unbounded theorem yet for the aggregation kernels: theorems are bounded (<= 4 vertices) and the tie to '
-              'the code is the exhaustive <= 5/6-vertex correspondence.  Lloyd / balanced Lloyd: oracle only.')
+LEVEL_NOTE = ('Naive aggregation has an unbounded theorem (every graph, any size); standard and pairwise are bounded (<= 4 '
+              'vertices); the tie to the code is the exhaustive <= 5/6-vertex correspondence.  Lloyd / balanced Lloyd: oracle only.')
 RULE = ('complete enumeration of symmetric graphs on 1..5 (6 thorough) vertices with/without diagonal and of directed '
         'patterns on <= 3 vertices: standard, naive, pairwise (tied integer weights) kernels == Gallina model exactly; '
         'public standard/naive/pairwise/lloyd aggregation on random symmetric strength graphs (stars, cliques, isolated '
         'vertices, components) and nonsymmetric M-matrices -> partition oracle.  Non-trivial: graph has an edge.')
 TRUSTED = ['scipy.sparse.csgraph (oracle side only)', 'SciPy coo->csr conversion in the Python wrappers']
-PARTIAL = ['all C12 theorems are bounded to <= 4 vertices', 'Lloyd aggregation: oracle only']
+PARTIAL = ['standard and pairwise aggregation: theorems bounded to <= 4 vertices (naive: unbounded)', 'Lloyd aggregation: oracle only']
 HEADER = ('From Coq Require Import ZArith List.\nImport ListNotations.\n'
           'Require Import PV.Base.Ops PV.Model.GraphRun PV.Model.GraphRun2.\nOpen Scope Z_scope.\n')
 I32 = np.int32
